@@ -2,6 +2,7 @@
 mod c07;
 mod c08;
 mod c09;
+mod c12;
 mod c09_stacks;
 mod rl;
 mod stack;
@@ -13,6 +14,7 @@ fn main() {
         "BENCH07" => { c07::bench(); 0 }
         "C08" => c08::run(&args),
         "C09" => c09::run(&args),
+        "C12" => c12::run(&args),
         p => {
             eprintln!("h_filt: unknown property {}", p);
             2
